@@ -33,10 +33,14 @@ def main(tier, n=None):
     def gitcases(tier_, n_):
         from . import c05
         rng = common.rng_for("c02git", common.base_seed())
-        k = 80 if tier_ == "quick" else 1500
+        k = 160 if tier_ == "quick" else 2500
         if n_:
             k = max(4, n_ // 20)
-        return [dict(c05.gen_case(rng), git_mode="git") for _ in range(k)]
+        cs = [dict(c05.gen_case(rng), git_mode="git") for _ in range(k)]
+        for i, c in enumerate(cs):
+            if i % 2 == 0:
+                c.update(shape="unequal-merge", side_len=rng.randint(1, 4), main_len=rng.randint(1, 3), merge_into_side=rng.random() < 0.5)
+        return cs
 
     rep, code = S.run(PROP, tier, "exploration", RULE, plan, ["c02_spawn_checks", "c02_progress_checks", "c02_row_checks", "e1_runs", "c02_git_run_checks", "c02_invalid_definition_runs"], n, e1=("cache", 60, 1500, 7),
                       post=gitcases, post_fn=git_flag_case)
